@@ -119,6 +119,17 @@ CLAIMED = {
              'values are summarised as returning a Response; user serialisation hooks are assumed total.',
         technique='contract-based deductive verification (pyvc + z3) with typed kind cases',
         design_ref='DESIGN.md 7 C17'),
+    'C14': dict(
+        text='Deductive verification of find_file (raises ValueError or returns None / the join of the first search '
+             'directory holding the normalised path, which is relative and free of ".." components, hence inside that '
+             'directory: loop invariant over the search paths), of build_file_response under the fault model "every '
+             'filesystem call may raise OSError/ValueError" (each crash point is a path: only a non-breaking '
+             'HTTPException escapes, no opened file is left open, Content-Length is getsize, the 304 branch only sets 304) '
+             'and of StaticApplication.get_file_response (only non-breaking 403/404 escape).',
+        note='posixpath.normpath / join / isfile are assumed contracts (A-np) stated as axioms; symlinks excluded; date '
+             'round trip of Last-Modified is Werkzeug\'s; native replay harness with fault injection at every call.',
+        technique='contract-based deductive verification (pyvc + z3) with exhaustive fault-point paths',
+        design_ref='DESIGN.md 7 C14'),
 }
 
 REASONS = {}
